@@ -350,7 +350,7 @@ def run(rig, sc, timeout=60):
         sigs = [(trig, signal.SIGINT)]
     res = rig.run(puppet_scenario(sc), nextest_config(sc, profile), args=cli_args(sc, profile), signals=sigs,
                   timeout=timeout,
-                  env_extra=env_for(sc), tool_configs=tool_configs(sc))
+                  env_extra=env_for(sc), tool_configs=tool_configs(sc), no_binaries=bool(sc.get("no_binaries")))
     res["profile"] = profile
     jp = os.path.join(e2e.PUPPET, "target", "nextest", profile, "junit.xml")
     res["junit_path"] = jp
@@ -969,6 +969,13 @@ def directed(prop):
             out.append(dict(tests=tests, retries=0, delay_ms=0, backoff="fixed", failfast="noff", threads=2,
                             filter="matches_nothing", run_ignored="default", sigint_at=None, priorities=None,
                             groups=None, no_tests=pol, no_tests_via=via))
+    if prop in ("C01", "C02"):
+        # nothing to select from: binaries that list no test, and a build that produced no test binary at all
+        for pol, via, nob in (("pass", "env", True), ("warn", "cli", False), ("fail", "env", True), (None, None, True),
+                              (None, None, False)):
+            out.append(dict(tests=[], retries=0, delay_ms=0, backoff="fixed", failfast="noff", threads=2,
+                            filter=None, run_ignored="default", sigint_at=None, priorities=None,
+                            groups=None, no_tests=pol, no_tests_via=via, no_binaries=nob))
     if prop in ("C01", "C03", "C17"):
         # terminated by nextest at its deadline, exits with status 0 within the grace period: the attempt
         # timed out, the run failed (exit status 100)
